@@ -37,6 +37,9 @@ CLAIMED = {
  'C13': ('exploration', 'deterministic simulation: update histories against f64 batch statistics of exactly the fed prefix; snapshots taken by real progress workers under the simulated clock and seeded schedules',
          'ChainTracker, collect_rhat and MultiChainTracker are driven by generated update histories (length 2..5000, 2..16 chains, 1..8 parameters, f64/f32/i32 states, agreeing and shifted chains, repeated states): count, mean, unbiased variance, the acceptance EMA recurrence and range are checked after every update, both R-hat figures against the classical sqrt(var+/W) at chosen prefixes. Real run_chain_progress workers on simulated threads/clock send snapshots to a stub listener: which prefix a snapshot covers is decided by the schedule and clock, and every snapshot must be the batch statistics of exactly that prefix.',
          'Trusts: condition-aware tolerance 8*n*eps32*(1+mean^2/var); comparisons whose own bound exceeds 2% are counted, not judged.', '3/C13'),
+ 'C14': ('exploration', 'deterministic simulation with fault-returning targets: invariant after every transition of MH / HMC / NUTS runs on targets with bounded support, NaN regions, NaN gradients and overflowing step sizes; hang decided against the Algorithm 6 stopping point',
+         'The targets are the fault injectors: -inf outside a half-line or box, NaN from log/sqrt of negative arguments, NaN beyond a radius, cliffs; proposals that leave the support and extreme candidates (inf, NaN, 1e308); HMC step sizes up to 3e38; starts of finite density incl. next to the boundary; acceptance draws down to 1 ulp injected (exactly 0 excepted). After every transition of every run: coordinates finite, the harness own f64 copy of the log-density finite, and a transition whose candidate was inadmissible left the state bitwise unchanged; no panic; a NUTS run cut off by the evaluation budget is a hang only if the library had doubled beyond the point where Algorithm 6 stops.',
+         'Trusts: the f64 copy of each target; merely long trajectories (tiny adapted step sizes next to a boundary) are counted, not judged.', '3/C14'),
  'C16': ('exploration', 'deterministic simulation of the generator seam: injected uniform variates (crafted generator states) incl. the complete f32 variate space; reference inverse CDF with zero-probability exclusion',
          'Categorical::new / logp / sample run for real; the private OS-seeded generator is replaced (verification-only constructor) by a crafted state whose next output is chosen. Per weight vector (length 1..64, zeros anywhere, unnormalised): normalisation, bitwise logp, and sample() for the variates 0, 1 ulp, 1-ulp, the representable values around every cumulative boundary and random ones; for f32 vectors the complete space of 2^24 variates is enumerated (exhaustive per vector) and exact selection frequencies are compared with the probabilities. A zero-probability category is never acceptable.',
          'Trusts: the crafted generator state (self-checked); the set of weight vectors is sampled, the variate space per f32 vector is complete.', '3/C16'),
